@@ -813,6 +813,62 @@ def operate (tr : Tr α) (expr : Str) : Res α (Option (List α)) :=
   let r := evaluate tr expr
   (r.1, purge r.2)
 
+/-! ## externals: `Track.operate(expression, {'name': value, …})` -/
+
+def lookupExt (s : Str) : List (Str × α) → Option α
+  | [] => none
+  | (k, v) :: rest => if k = s then some v else lookupExt s rest
+
+/-- `__evaluateRPN(expression, external)`: a token that is a key of the dictionary `external` (the operator tokens
+    excepted: they are tested first) is replaced by its value — a number — before it is pushed -/
+def evalRPNx (ext : List (Str × α)) (tr : Tr α) : List Str → List (Item α) → Nat → Res α (List (Item α))
+  | [], st, _ => (.ok st, tr)
+  | e :: es, st, k =>
+    match isOperatorTok e with
+    | some o =>
+      match st with
+      | op2 :: op1 :: st' =>
+        match applyOperation tr op1 op2 o k with
+        | (.ok r, tr1) => evalRPNx ext tr1 es (r :: st') (k + 1)
+        | (.error err, tr1) => (.error err, tr1)
+      | _ => (.error "err:index", tr)
+    | none =>
+      match lookupExt e ext with
+      | some v => evalRPNx ext tr es (.num v :: st) k
+      | none => evalRPNx ext tr es (.tok e :: st) k
+
+/-- `evalTokens` with externals -/
+def evalTokensX (ext : List (Str × α)) (tr : Tr α) (rpn : List Str) (void : Bool) : Res α (Option (List α)) :=
+  match evalRPNx ext tr rpn [] 0 with
+  | (.error e, tr1) => (.error e, tr1)
+  | (.ok _, tr1) =>
+    if void then (.ok none, tr1)
+    else
+      match getAF tr1 outputName with
+      | .error e => (.error e, tr1)
+      | .ok c =>
+        match removeAF tr1 outputName with
+        | .error e => (.error e, tr1)
+        | .ok tr2 => (.ok (some c), tr2)
+
+def evaluateRewrittenX (ext : List (Str × α)) (tr : Tr α) (s : Str) (void : Bool) : Res α (Option (List α)) :=
+  match makeRPN s with
+  | .error e => (.error e, tr)
+  | .ok rpn0 =>
+    match doublePrime rpn0 with
+    | .error e => (.error e, tr)
+    | .ok rpn => evalTokensX ext tr rpn void
+
+def evaluateX (ext : List (Str × α)) (tr : Tr α) (expr : Str) : Res α (Option (List α)) :=
+  match preprocess expr with
+  | .error e => (.error e, tr)
+  | .ok (s, void) => evaluateRewrittenX ext tr s void
+
+/-- `Track.operate(expression, external)`: as `operate`, the stack machine reading the externals -/
+def operateX (ext : List (Str × α)) (tr : Tr α) (expr : Str) : Res α (Option (List α)) :=
+  let r := evaluateX ext tr expr
+  (r.1, purge r.2)
+
 /-- the characters `Track.__getitem__` looks for to decide that a string is an expression (braces are not among them) -/
 def exprChars : List Char := ['+', '-', '/', '*', '^', '>', '<', '(', ')', '=', '\'']
 
